@@ -82,6 +82,67 @@ theorem unset_iff_no_lines (d : HDecl) (v w : HVal) (h : readLines d (writeLines
         · simp at h
     · intro hc; simp at hc
 
+theorem valuesOf_append (key : String) (a b : List (String × Str)) :
+    valuesOf key (a ++ b) = valuesOf key a ++ valuesOf key b := by
+  simp [valuesOf, List.filter_append]
+
+theorem valuesOf_own (key : String) (ls : List Str) :
+    valuesOf key (ls.map (fun l => (key, l))) = ls := by
+  induction ls with
+  | nil => rfl
+  | cons l r ih =>
+    simp only [valuesOf, List.map_cons, List.filter_cons, beq_self_eq_true, if_true, List.cons.injEq, true_and] at *
+    exact ih
+
+theorem valuesOf_other (key k : String) (ls : List Str) (h : k ≠ key) :
+    valuesOf key (ls.map (fun l => (k, l))) = [] := by
+  induction ls with
+  | nil => rfl
+  | cons l r ih =>
+    have hb : (k == key) = false := by simp [h]
+    simp only [valuesOf, List.map_cons, List.filter_cons, hb] at *
+    exact ih
+
+/-- other headers' field lines are invisible under a key none of them has -/
+theorem valuesOf_writeAll_absent (key : String) (hs : List (String × HVal)) (h : ∀ kv ∈ hs, kv.1 ≠ key) :
+    valuesOf key (writeAll hs) = [] := by
+  induction hs with
+  | nil => rfl
+  | cons kv rest ih =>
+    obtain ⟨k, v⟩ := kv
+    have hk : k ≠ key := h (k, v) List.mem_cons_self
+    simp only [writeAll, valuesOf_append, valuesOf_other key k _ hk, List.nil_append]
+    exact ih (fun x hx => h x (List.mem_cons_of_mem _ hx))
+
+/-- **C10, the whole header block.** When the declared headers have pairwise distinct canonical keys,
+    the client reads under each header's key exactly the field lines written for THAT header — no line
+    of another header leaks in, none is lost — and so rebuilds every header value of the response. -/
+theorem read_write_all (hs : List (String × HDecl × HVal))
+    (hdist : (hs.map (·.1)).Pairwise (· ≠ ·)) (hok : ∀ h ∈ hs, ValOk h.2.1 h.2.2) :
+    ∀ h ∈ hs, readLines h.2.1 (valuesOf h.1 (writeAll (hs.map (fun x => (x.1, x.2.2))))) = .ok h.2.2 := by
+  induction hs with
+  | nil => intro h hh; simp at hh
+  | cons x rest ih =>
+    obtain ⟨k, d, v⟩ := x
+    simp only [List.map_cons, List.pairwise_cons] at hdist
+    obtain ⟨hk, hrest⟩ := hdist
+    intro h hh
+    simp only [List.map_cons, writeAll, valuesOf_append]
+    rcases List.mem_cons.mp hh with rfl | hin
+    · -- this header: its own lines, nothing from the rest
+      have habs : valuesOf k (writeAll (rest.map (fun x => (x.1, x.2.2)))) = [] := by
+        apply valuesOf_writeAll_absent
+        intro kv hkv
+        simp only [List.mem_map] at hkv
+        obtain ⟨y, hy, rfl⟩ := hkv
+        exact fun heq => hk y.1 (List.mem_map.mpr ⟨y, hy, rfl⟩) heq.symm
+      simp only [valuesOf_own, habs, List.append_nil]
+      exact read_write_header d v (hok (k, d, v) List.mem_cons_self)
+    · -- a later header: the first header's lines are invisible under its key
+      have hne : k ≠ h.1 := hk h.1 (List.mem_map.mpr ⟨h, hin, rfl⟩)
+      simp only [valuesOf_other h.1 k _ hne, List.nil_append]
+      exact ih hrest (fun y hy => hok y (List.mem_cons_of_mem _ hy)) h hin
+
 /-- a required header the server did not write is an error at the client, not a zero value -/
 theorem required_absent_is_error (d : HDecl) (h : d.required = true) : readLines d [] = .error .required := by
   simp [readLines, h]
